@@ -46,6 +46,11 @@ def line(cls, i):
         return s + "y" * (150 - len(s))
     if cls == "unicode":
         return "µm² × %d ≥ αβγ – ünïcödé ✓" % i
+    if cls == "unicode140":
+        s = "µm %d °C " % i
+        while len(s.encode("utf-8")) < 139:
+            s += "µ"
+        return s + "x" * (140 - len(s.encode("utf-8")))
     if cls == "bytes":
         return ("bytes line %d" % i).encode("utf-8")
     raise ValueError(cls)
